@@ -21,8 +21,8 @@ def handle (op : String) (j : Json) : Option (R Json) :=
       | none => pure (errJ "ValueError")
       | some v => pure (okJ [("out", ints ((Array.range img.size).map v))])
   | "st.shot_gaussian" => some do
-      let img ← getFloats j "img"; let z ← getFloats j "z"
-      match shotGaussian Float.sqrt truncF (fun _ i => z[i]!) 0 img.size (fun i => img[i]!) with
+      let img ← getFloats j "img"; let z ← getFloats j "z"; let lamMax ← getFloat j "lam_max"
+      match shotGaussian lamMax Float.sqrt truncF (fun _ i => z[i]!) 0 img.size (fun i => img[i]!) with
       | none => pure (errJ "ValueError")
       | some v => pure (okJ [("out", ints ((Array.range img.size).map v))])
   | "st.read_noise" => some do
@@ -31,6 +31,13 @@ def handle (op : String) (j : Json) : Option (R Json) :=
   | "st.dark" => some do
       let rate ← getFloat j "rate"; let f ← getFloat j "fpn_factor"; let fpn ← getFloats j "fpn"; let n ← getNat j "n"
       pure (okJ [("out", ints ((Array.range n).map (darkCurrent floorF (fun _ i => fpn[i]!) rate f 0)))])
+  | "st.rule07" => some do
+      let t ← getFloat j "temperature"; let cw ← getFloat j "cutoff"; let px ← getFloat j "pixelscale"
+      let f ← getFloat j "fpn_factor"; let fpn ← getFloats j "fpn"; let n ← getNat j "n"
+      let rate := rule07Rate Float.exp Float.pow (fun m s e => OfScientific.ofScientific m s e) t cw px
+      pure (okJ [("rate", floatToJson rate),
+                 ("out", ints ((Array.range n).map (rule07Dark floorF (fun _ i => fpn[i]!) rate f 0))),
+                 ("vals", floats ((Array.range n).map fun i => if 0.0 < f then rate * 1.0 * fpn[i]! else rate))])
   | "st.power" => some do
       let x ← getFloats j "x"; let mask ← getFloats j "mask"; let rms ← getFloat j "rms"
       let n := x.size
